@@ -612,6 +612,44 @@ def check_kernels(prog, rep):
     if f is None:
         raise AnalysisIncomplete('_ellipse_kernel not found')
     hw, hh = f.params[:2]
+    # the two coordinate grids written in place inside the inequality (`(np.linspace(..) * h) ** 2 + ...`) are given names
+    # first, so that the rule reads `x = linspace(..)`, `y = linspace(..)[:, None]` either way
+    if not any(isinstance(s_, ast.Assign) and any(isinstance(c_, ast.Call) and short(c_) == 'linspace' for c_ in ast.walk(s_.value))
+               for s_ in f.node.body):
+        import copy as _copy
+        node_ = _copy.deepcopy(f.node)
+        found_ = []
+
+        class _Name(ast.NodeTransformer):
+            def visit_Subscript(self, n):
+                if isinstance(n.value, ast.Call) and short(n.value) == 'linspace':
+                    found_.append(n)
+                    return ast.copy_location(ast.Name(id='_grid%d' % (len(found_) - 1), ctx=ast.Load()), n)
+                self.generic_visit(n)
+                return n
+
+            def visit_Call(self, n):
+                if short(n) == 'linspace':
+                    found_.append(n)
+                    return ast.copy_location(ast.Name(id='_grid%d' % (len(found_) - 1), ctx=ast.Load()), n)
+                if short(n) == 'reshape' and isinstance(n.func, ast.Attribute) and isinstance(n.func.value, ast.Call) and short(n.func.value) == 'linspace':
+                    found_.append(n)
+                    return ast.copy_location(ast.Name(id='_grid%d' % (len(found_) - 1), ctx=ast.Load()), n)
+                self.generic_visit(n)
+                return n
+        rets_ = [k_ for k_, s_ in enumerate(node_.body) if isinstance(s_, ast.Return)]
+        if len(rets_) == 1:
+            k_ = rets_[0]
+            node_.body[k_] = _Name().visit(node_.body[k_])
+            if len(found_) == 2:
+                pre_ = [ast.copy_location(ast.Assign(targets=[ast.Name(id='_grid%d' % i_, ctx=ast.Store())], value=e_), node_.body[k_])
+                        for i_, e_ in enumerate(found_)]
+                node_.body[k_:k_] = pre_
+                ast.fix_missing_locations(node_)
+                from ..program import Func as _Func
+                g_ = _Func(f.module, node_, f.parent)
+                g_.jit, g_.children = f.jit, f.children
+                f = g_
     from ..astutil import inline, straightline_env
     from ..kai import Arr, TupleV
     W, H = Rat.sym('W'), Rat.sym('H')
